@@ -511,6 +511,8 @@ func (w *bw) eci(v, form int) {
 		w.put(0x8000|v, 16)
 	case 3:
 		w.put(0xC00000|v, 24)
+	case 4: // NOT a designator: first byte 111xxxxx (ISO/IEC 18004 knows 0, 10 and 110 prefixes only)
+		w.put(0xE00000|v, 24)
 	}
 }
 
@@ -595,11 +597,14 @@ func eciOne(l *mc.Local, c eciCase) {
 	}
 	l.Count("evaluations", 1)
 	cls := eciClass(c.Value)
+	if c.Form == 4 {
+		cls = "malformed-prefix"
+	}
 	if pm != "" {
 		chk.Violation("C15/panic/"+site+"/eci-"+cls, fmt.Sprintf("ECI designator %d (%d-byte form) in a symbol: panic %s", c.Value, c.Form, pm), c)
 		return
 	}
-	if d := defByValue[c.Value]; d != nil {
+	if d := defByValue[c.Value]; d != nil && c.Form != 4 {
 		want := decodeWith(d.enc, universal)
 		l.Distinct("nontrivial", fmt.Sprint("eci/", c.Value, "/", c.Form, c.Full))
 		l.Distinct("outcomes", "eci/"+d.key())
@@ -651,8 +656,8 @@ func runECIStream() {
 	// every 7-bit value in the 1-byte form
 	var cases []eciCase
 	const chunk = 8192
-	nChunks := (1<<21)/chunk + (1<<14)/chunk + 1
-	chk.Range("(1c) bit-stream parser: ECI designator + byte segment for every value of the 3-byte form (0..2097151), of the 2-byte form (0..16383) and of the 1-byte form (0..127)", nChunks,
+	nChunks := (1<<21)/chunk + (1<<14)/chunk + 1 + (1<<21)/chunk
+	chk.Range("(1c) bit-stream parser: ECI designator + byte segment for every value of the 3-byte form (0..2097151), of the 2-byte form (0..16383) and of the 1-byte form (0..127); and every 24-bit word with the ILLEGAL first byte 111xxxxx (2^21 words): format error", nChunks,
 		func(i int) string { return fmt.Sprint("chunk ", i) },
 		func(l *mc.Local, i int) {
 			switch {
@@ -665,9 +670,14 @@ func runECIStream() {
 				for v := j * chunk; v < (j+1)*chunk; v++ {
 					eciOne(l, eciCase{Sub: "eci-stream", Value: v, Form: 2})
 				}
-			default:
+			case i == (1<<21)/chunk+(1<<14)/chunk:
 				for v := 0; v < 128; v++ {
 					eciOne(l, eciCase{Sub: "eci-stream", Value: v, Form: 1})
+				}
+			default:
+				j := i - (1<<21)/chunk - (1<<14)/chunk - 1
+				for v := j * chunk; v < (j+1)*chunk; v++ {
+					eciOne(l, eciCase{Sub: "eci-stream", Value: v, Form: 4})
 				}
 			}
 		})
